@@ -1,5 +1,6 @@
 import RichModel.Model.ColorCore
 import RichModel.Gen.ColorNames
+import RichModel.Gen.StrTables
 /-
 Model of `Color.parse` (rich/color.py:389-440) with `RE_COLOR` (color.py:250-257) as a hand-written
 scanner and `ANSI_COLOR_NAMES` as the table translated from the source on every run
@@ -8,10 +9,16 @@ scanner and `ANSI_COLOR_NAMES` as the table translated from the source on every 
 Import-free apart from `RichModel.Model.*` / `RichModel.Gen.*` (the driver links natively).
 
 MODELLED DOMAIN.  Python's `str.lower()`, `str.strip()`, `str.split()`, `\d`, `\s` and `int()` are
-Unicode-aware.  This file models them for **ASCII text only** (`AsciiStr.allAscii`); for a string with
-a code point >= 128 the driver answers `unmodelled`.  Inside ASCII the model is exact, including the
-four separators U+001C..U+001F, which `str.isspace`/`str.split`/`str.strip`/`\s` treat as white
-space but `int()` does not.
+Unicode-aware.  They enter the model as the parameter `T : StrTables` (which characters are white
+space, which are decimal digits and with what value, what each character lower-cases to, the
+interpreter's `int()` digit limit).  The theorems hold for **every** `T` satisfying `StrTables.Lawful`
+(agreement with the ASCII rules below 128, `lower` idempotent and not creating white space);
+`StrTables.ascii` (proved lawful) is the ASCII-only instance that C03/C14/C19 use through the
+two-argument `Color.parse v` / `Style.parse v`; `StrTables.real` is built from the tables translated
+from the *running* Python on every run (`Gen/StrTables.lean`, harness/gen/str_tables.py) and is what the
+C06 driver is compared with on all code points.  Its lawfulness is validated exhaustively on every run
+(request `tables_lawful`), not proved.  The one thing outside the model: `str.lower()` of a string
+containing GREEK CAPITAL SIGMA (final-sigma rule, context dependent) — the driver answers `unmodelled`.
 
 `functools.lru_cache` on `Color.parse` is assumed transparent (the function is pure).
 -/
@@ -53,12 +60,16 @@ structure StyleVariant where
   /-- F26: `update_link` copies the cached `_style_definition` (style.py:588), so `str()` of the
   result can be the definition of the *old* style; repaired: cache cleared. -/
   updateLinkDef : Bool
+  /-- F30: `Style(link="")` / `update_link("")` store the empty string, which every method treats as
+  "no link" except `==`/`hash` (so `NULL_STYLE + Style(link="") != Style(link="")`); repaired: an
+  empty link is stored as `None`. -/
+  emptyLink : Bool
 deriving Repr, BEq, DecidableEq
 
 /-- rich 9.10.0 as found. -/
-def StyleVariant.old : StyleVariant := ⟨true, true, true, true, true, true⟩
+def StyleVariant.old : StyleVariant := ⟨true, true, true, true, true, true, true⟩
 /-- All repairs applied. -/
-def StyleVariant.fixed : StyleVariant := ⟨false, false, false, false, false, false⟩
+def StyleVariant.fixed : StyleVariant := ⟨false, false, false, false, false, false, false⟩
 
 /-! ### Python `str` methods on ASCII text -/
 namespace AsciiStr
@@ -124,14 +135,118 @@ def dropPrefix? : List Char → List Char → Option (List Char)
 /-- Value of a run of ASCII decimal digits. -/
 def decimalVal (ds : List Char) : Nat := ds.foldl (fun acc d => 10 * acc + (d.toNat - 48)) 0
 
-/-- `int(s)` for an ASCII `s` made of digits and white space only (the only strings the `rgb(...)`
-branch can pass): strip C white space, then require a non-empty run of digits.  `none` = `ValueError`.
+end AsciiStr
+
+/-! ### The running Python's character tables -/
+
+/-- Facts about `str` of the interpreter.  Every theorem holds for all lawful values. -/
+structure StrTables where
+  /-- `str.isspace` = regex `\s` = what `str.strip()` / `str.split()` remove -/
+  isSpace : Char → Bool
+  /-- regex `\d` = `str.isdecimal`: the digit value `int()` gives the character -/
+  decimal : Char → Option Nat
+  /-- `chr(c).lower()` (one character can lower-case to several) -/
+  lowerChar : Char → List Char
+  /-- `sys.get_int_max_str_digits()` (0 = no limit) -/
+  maxDigits : Nat
+
+namespace StrTables
+variable (T : StrTables)
+
+/-- `str.lower()`, character by character. -/
+def lower (s : List Char) : List Char := s.flatMap T.lowerChar
+/-- `str.lstrip()`. -/
+def lstrip (s : List Char) : List Char := s.dropWhile T.isSpace
+/-- `str.rstrip()`. -/
+def rstrip (s : List Char) : List Char := (s.reverse.dropWhile T.isSpace).reverse
+/-- `str.strip()`. -/
+def strip (s : List Char) : List Char := T.rstrip (T.lstrip s)
+
+/-- Loop of `str.split()` (no argument): `cur` is the word being collected. -/
+def splitAux : List Char → List Char → List (List Char)
+  | [], cur => if cur.isEmpty then [] else [cur]
+  | c :: r, cur =>
+    if T.isSpace c then (if cur.isEmpty then splitAux r [] else cur :: splitAux r [])
+    else splitAux r (cur ++ [c])
+
+/-- `str.split()`: maximal runs of non-white-space characters. -/
+def split (s : List Char) : List (List Char) := T.splitAux s []
+
+/-- No `str.isspace` character. -/
+def noSpace (s : List Char) : Bool := s.all fun c => !T.isSpace c
+
+/-- What `int()` skips at both ends.  CPython (`_PyUnicode_TransformDecimalAndSpaceToASCII`) leaves an
+all-ASCII string alone and otherwise keeps every character below 127 and turns the other `str.isspace`
+characters into a blank; the ASCII parser then skips C `isspace` only: TAB LF VT FF CR SPACE — **not**
+U+001C..U+001F, which `\s` admits. -/
+def isIntSpace (c : Char) : Bool :=
+  if c.toNat < 127 then AsciiStr.isIntSpace c else T.isSpace c
+
+/-- One step of reading a decimal string left to right. -/
+def intStep (acc : Option Nat) (c : Char) : Option Nat :=
+  match acc, T.decimal c with
+  | some a, some d => some (10 * a + d)
+  | _, _ => none
+
+/-- `int(s)` for a string made of `\d` and `\s` characters only (all that `RE_COLOR` lets through,
+apart from the commas it is split at): strip, then a non-empty run of decimal digits no longer than
+the interpreter's limit (`sys.get_int_max_str_digits()`, 4300 by default).  `none` = `ValueError`.
 (Signs and underscores cannot occur: `RE_COLOR` does not let them through.) -/
 def pyInt (s : List Char) : Option Nat :=
-  let t := ((s.dropWhile isIntSpace).reverse.dropWhile isIntSpace).reverse
-  if t.isEmpty then none else if t.all isDigit then some (decimalVal t) else none
+  let t := ((s.dropWhile T.isIntSpace).reverse.dropWhile T.isIntSpace).reverse
+  if t.isEmpty then none
+  else if T.maxDigits ≠ 0 ∧ T.maxDigits < t.length then none
+  else t.foldl T.intStep (some 0)
 
-end AsciiStr
+/-- The ASCII rules: what the tables are for text below 128 (and the legacy model of C06 round 1). -/
+def ascii : StrTables :=
+  { isSpace := AsciiStr.isSpace
+    decimal := fun c => if AsciiStr.isDigit c then some (c.toNat - 48) else none
+    lowerChar := fun c => [AsciiStr.lowerChar c]
+    maxDigits := 4300 }
+
+/-- `(lo, hi, target)` runs: the image of `n` if it lies in a run. -/
+def inRuns (rs : List (Nat × Nat × Nat)) (n : Nat) : Option Nat :=
+  (rs.find? fun r => r.1 ≤ n && n ≤ r.2.1).map fun r => r.2.2 + (n - r.1)
+
+/-- The tables of the running Python, as translated on this run. -/
+def real : StrTables :=
+  { isSpace := fun c => Gen.strWhitespace.contains c.toNat
+    decimal := fun c => inRuns Gen.strDecimalRuns c.toNat
+    lowerChar := fun c =>
+      match Gen.strLowerSpecial.find? fun p => p.1 == c.toNat with
+      | some p => p.2.map Char.ofNat
+      | none =>
+        match inRuns Gen.strLowerRuns c.toNat with
+        | some t => [Char.ofNat t]
+        | none => [c]
+    maxDigits := Gen.strMaxDigits }
+
+/-- Strings whose `lower()` is not character-wise (final-sigma rule): outside the model. -/
+def lowerUnmodelled (s : List Char) : Bool := s.any fun c => Gen.strLowerContext.contains c.toNat
+
+/-- What the theorems need of the tables. -/
+class Lawful (T : StrTables) : Prop where
+  space_ascii : ∀ c : Char, c.toNat < 128 → T.isSpace c = AsciiStr.isSpace c
+  lower_ascii : ∀ c : Char, c.toNat < 128 → T.lowerChar c = [AsciiStr.lowerChar c]
+  decimal_ascii : ∀ c : Char, c.toNat < 128 →
+    T.decimal c = if AsciiStr.isDigit c then some (c.toNat - 48) else none
+  /-- `s.lower().lower() == s.lower()` -/
+  lower_idem : ∀ c : Char, (T.lowerChar c).flatMap T.lowerChar = T.lowerChar c
+  /-- lower-casing does not create white space -/
+  lower_noSpace : ∀ c : Char, T.isSpace c = false → ∀ d ∈ T.lowerChar c, T.isSpace d = false
+  /-- CPython refuses a limit below 640 -/
+  digits_floor : T.maxDigits = 0 ∨ 3 ≤ T.maxDigits
+
+/-- Executable form of `Lawful` at one character (the driver evaluates it on every code point). -/
+def lawfulAt (c : Char) : Bool :=
+  (if c.toNat < 128 then
+    T.isSpace c == AsciiStr.isSpace c && T.lowerChar c == [AsciiStr.lowerChar c] &&
+    T.decimal c == (if AsciiStr.isDigit c then some (c.toNat - 48) else none) else true) &&
+  (T.lowerChar c).flatMap T.lowerChar == T.lowerChar c &&
+  (T.isSpace c || (T.lowerChar c).all fun d => !T.isSpace d)
+
+end StrTables
 
 open AsciiStr
 
@@ -160,8 +275,9 @@ def dropCloseParen? (s : List Char) : Option (List Char) :=
   | _ => none
 
 /-- `RE_COLOR.match(s)`.  The three alternatives start with different characters, so their order
-does not matter; `$` is end-of-string here because `s` has been stripped (no trailing newline). -/
-def matchReColor (s : List Char) : Option ReColor :=
+does not matter; `$` is end-of-string here because `s` has been stripped (no trailing newline).
+`[0-9a-f]` and `[0-9]` are ASCII classes; `\d` and `\s` in the third are the interpreter's. -/
+def matchRe (T : StrTables) (s : List Char) : Option ReColor :=
   match s with
   | '#' :: rest => if rest.length == 6 && rest.all isHexLower then some (.hex rest) else none
   | _ =>
@@ -175,7 +291,8 @@ def matchReColor (s : List Char) : Option ReColor :=
       | some rest =>
         match dropCloseParen? rest with
         | some body =>
-          if 1 ≤ body.length && body.all (fun c => isDigit c || isSpace c || c == ',') then some (.rgb body) else none
+          if 1 ≤ body.length && body.all (fun c => (T.decimal c).isSome || T.isSpace c || c == ',')
+          then some (.rgb body) else none
         | none => none
       | none => none
 
@@ -187,12 +304,12 @@ def ansiColorNumber (name : List Char) : Option Nat :=
 def numberType (n : Nat) : ColorType := if n < 16 then .standard else .eightBit
 
 /-- Body of `Color.parse` after `color = color.lower().strip()` (color.py:396-440). -/
-def Color.parseNorm (v : StyleVariant) (color : List Char) : Except StyleErr Color :=
+def Color.parseNormT (T : StrTables) (v : StyleVariant) (color : List Char) : Except StyleErr Color :=
   if color == cl! "default" then .ok { name := color, type := .default }
   else match ansiColorNumber color with
   | some n => .ok { name := color, type := numberType n, number := some n }
   | none =>
-    match matchReColor color with
+    match matchRe T color with
     | none => .error .colorParse
     | some (.hex six) =>
       match six with
@@ -206,7 +323,7 @@ def Color.parseNorm (v : StyleVariant) (color : List Char) : Except StyleErr Col
     | some (.rgb body) =>
       match splitComma body with
       | [red, green, blue] =>
-        match pyInt red, pyInt green, pyInt blue with
+        match T.pyInt red, T.pyInt green, T.pyInt blue with
         | some r, some g, some b =>
           if r ≤ 255 && g ≤ 255 && b ≤ 255 then
             .ok { name := color, type := .truecolor, triplet := some ⟨r, g, b⟩ }
@@ -214,8 +331,12 @@ def Color.parseNorm (v : StyleVariant) (color : List Char) : Except StyleErr Col
         | _, _, _ => .error (if v.rgbValueError then .valueError else .colorParse)
       | _ => .error .colorParse
 
-/-- `Color.parse(color)` (color.py:389-440). -/
-def Color.parse (v : StyleVariant) (color : List Char) : Except StyleErr Color :=
-  Color.parseNorm v (strip (lower color))
+/-- `Color.parse(color)` (color.py:389-440) over the tables `T`. -/
+def Color.parseT (T : StrTables) (v : StyleVariant) (color : List Char) : Except StyleErr Color :=
+  Color.parseNormT T v (T.strip (T.lower color))
+
+/-- `Color.parse(color)` on ASCII text (the instance other models use). -/
+abbrev Color.parse (v : StyleVariant) (color : List Char) : Except StyleErr Color :=
+  Color.parseT StrTables.ascii v color
 
 end RichModel
